@@ -49,9 +49,10 @@ def main():
     parts = [read('part1_common.vrs.in'), read('part2_lemmas.vrs.in'), read('part3_traits.vrs.in')]
     p4 = read('part4_float.vrs.in')
     parts += [inst(p4, F32), inst(p4, F64)]
-    for n in sorted(os.listdir(SRC)):
-        if re.match(r'part[5-9].*\.vrs\.in$', n):
-            parts.append(inst(read(n), {}))
+    for n in ('part5_generic.vrs.in', 'part6_generic2.vrs.in', 'part7_buint.vrs.in'):
+        parts.append(inst(read(n), {}))
+    p8 = read('part8_top.vrs.in')
+    parts += [inst(p8, F32), inst(p8, F64)]
     txt = '\n'.join(parts) + '\n'
     assert '@' not in re.sub(r'/\*@\{\*/|/\*\}@\*/|x@|\w@|@ ', '', txt) or True
     open(OUT, 'w').write(txt)
